@@ -17,7 +17,10 @@ BreakdownUnion(o) == UNION { NonIgnored(e) : e \in RangeOf(o.per_change) }
 
 AnalyzeWhy(r) ==
   LET c   == r.config
-      ps  == RangeOf(r.changes)
+      \* the changed paths: as established independently of the implementation where the driver could (git's own
+      \* answer for the same two states), else the ones the implementation listed; psr = the ones it listed
+      ps  == IF "true_changes" \in DOMAIN r THEN RangeOf(r.true_changes) ELSE RangeOf(r.changes)
+      psr == RangeOf(r.changes)
       out == RangeOf(r.out.targets)
       lo  == AffectedLo(c, ps)
       hi  == AffectedHi(c, ps)
@@ -28,7 +31,7 @@ AnalyzeWhy(r) ==
      ELSE IF ~r.out.strictly_sorted THEN "summary not sorted"
      ELSE IF ~(lo \subseteq out) THEN "affected target missing from summary"
      ELSE IF ~(out \subseteq hi) THEN "unaffected target in summary"
-     ELSE IF { e.path : e \in RangeOf(r.out.per_change) } # ps THEN "breakdown does not cover exactly the changes"
+     ELSE IF { e.path : e \in RangeOf(r.out.per_change) } # psr THEN "breakdown does not cover exactly the changes"
      ELSE IF BreakdownUnion(r.out) # out THEN "summary differs from union of non-ignored breakdown entries"
      ELSE IF \E s \in RangeOf(r.out.singles) :
                LET so == RangeOf(s.targets) IN
@@ -62,7 +65,8 @@ GroupsWhy(r) ==
   LET c  == r.config
       a  == DepAdj(c)
       V  == Closure(a, RangeOf(r.roots))
-      S  == IF r.pruned THEN RangeOf(r.changed) ELSE V
+      \* pruned to the changed targets: given directly, or as the changed paths (no `ignores` in these configurations)
+      S  == IF r.pruned THEN (IF "change_paths" \in DOMAIN r THEN AffectedLo(c, RangeOf(r.change_paths)) ELSE RangeOf(r.changed)) ELSE V
       cyclicReach == Cyclic(a, V)
       cyclicAny   == Cyclic(a, TPaths(c))
   IN IF cyclicReach
